@@ -1008,21 +1008,23 @@ Definition link_top (s : state) (x : nat) : Prop :=
   (forall m, In x (glay s m) -> pmux s x = None /\ pmsg s x = Some m /\ memb x (gsigs s m) = true)
   /\ (~ attached s x -> pmux s x = None /\ pmsg s x = None).
 
-Definition resize_ok_w (s : state) (x : nat) : Prop := link_top s x /\ single_followers s x.
-Definition enum_resize_ok_w (s : state) (e : nat) : Prop :=
-  (forall x, In x (erefs s e) -> resize_ok_w s x) /\ unshared s (erefs s e).
+Definition resize_ok_w (s : state) (x : nat) (a : Z) : Prop := link_top s x /\ single_moved s (rel s) x a.
+Definition enum_resize_ok_w (s : state) (e : nat) (a : Z) : Prop :=
+  (forall x, In x (erefs s e) -> resize_ok_w s x a) /\ unshared s (erefs s e).
 
 Definition ok_op_w (s : state) (o : op) : Prop :=
   match o with
   | OAppend m x | OInsert m x _ => ~ attached s x
   | OMuxInsert u x _ _ =>
       ~ attached s x \/ (memb x (usigs s u) = true /\ forall L, In x (lay s L) -> exists g, L = LG u g)
-  | OSetType x _ | OSetEnum x _ => resize_ok_w s x
-  | OAddValue e idx => emax s e < idx -> esize_of (emin s e) idx <> esize s e -> enum_resize_ok_w s e
+  | OSetType x n => resize_ok_w s x (n - sz s x)
+  | OSetEnum x e => resize_ok_w s x (esize s e - sz s x)
+  | OAddValue e idx => emax s e < idx -> esize_of (emin s e) idx <> esize s e ->
+      enum_resize_ok_w s e (esize_of (emin s e) idx - esize s e)
   | OUpdateIndex v idx =>
       forall e, vpar s v = Some e ->
         esize_of (emin s e) (Z.max (Z.max 0 idx) (max_index s (lrem v (evals s e)))) <> esize s e ->
-        enum_resize_ok_w s e
+        enum_resize_ok_w s e (esize_of (emin s e) (Z.max (Z.max 0 idx) (max_index s (lrem v (evals s e)))) - esize s e)
   | OSetMinSize e n => forall x, In x (erefs s e) -> attached s x -> esize_of n (emax s e) <= esize s e
   | _ => True
   end.
